@@ -2114,23 +2114,34 @@ func (f *fragment) bulkImportMutex(rowIDs, columnIDs []uint64) error {
 	defer f.mu.Unlock()
 
 	rowSet := make(map[uint64]struct{})
-	// we have to maintain which columns are getting bits set as a map so that
-	// we don't end up setting multiple bits in the same column if a column is
-	// repeated within the import.
-	colSet := make(map[uint64]uint64)
-
-	// Since each imported bit will at most set one bit and clear one bit, we
-	// can reuse the rowIDs and columnIDs slices as the set and clear slice
-	// arguments to importPositions. The set positions we'll get from the
-	// colSet, but we maintain clearIdx as we loop through row and col ids so
-	// that we know how many bits we need to clear and how far through columnIDs
-	// we are.
-	clearIdx := 0
+	// A column may be repeated within the import, possibly with different
+	// rows. The column must end up holding the row of its last entry, so
+	// record that row per column first; each column is then handled once,
+	// against the row it holds in storage.
+	lastRow := make(map[uint64]uint64, len(columnIDs))
 	for i := range rowIDs {
-		rowID, columnID := rowIDs[i], columnIDs[i]
-		if existingRowID, found, err := f.mutexVector.Get(columnID); err != nil {
+		lastRow[columnIDs[i]] = rowIDs[i]
+	}
+
+	// Since each column will at most set one bit and clear one bit, we can
+	// reuse the rowIDs and columnIDs slices as the set and clear slice
+	// arguments to importPositions. setIdx and clearIdx never run ahead of i.
+	setIdx, clearIdx := 0, 0
+	for i := range columnIDs {
+		columnID := columnIDs[i]
+		rowID, ok := lastRow[columnID]
+		if !ok {
+			// column already handled by an earlier entry
+			continue
+		}
+		delete(lastRow, columnID)
+
+		existingRowID, found, err := f.mutexVector.Get(columnID)
+		if err != nil {
 			return errors.Wrap(err, "getting mutex vector data")
-		} else if found && existingRowID != rowID {
+		} else if found && existingRowID == rowID {
+			continue
+		} else if found {
 			// Determine the position of the bit in the storage.
 			clearPos, err := f.pos(existingRowID, columnID)
 			if err != nil {
@@ -2138,26 +2149,17 @@ func (f *fragment) bulkImportMutex(rowIDs, columnIDs []uint64) error {
 			}
 			columnIDs[clearIdx] = clearPos
 			clearIdx++
-
 			rowSet[existingRowID] = struct{}{}
-		} else if found && existingRowID == rowID {
-			continue
 		}
 		pos, err := f.pos(rowID, columnID)
 		if err != nil {
 			return err
 		}
-		colSet[columnID] = pos
+		rowIDs[setIdx] = pos
+		setIdx++
 		rowSet[rowID] = struct{}{}
 	}
-
-	// re-use rowIDs by populating positions to set from colSet.
-	i := 0
-	for _, pos := range colSet {
-		rowIDs[i] = pos
-		i++
-	}
-	toSet := rowIDs[:i]
+	toSet := rowIDs[:setIdx]
 	toClear := columnIDs[:clearIdx]
 
 	return errors.Wrap(f.importPositions(toSet, toClear, rowSet), "importing positions")
